@@ -237,18 +237,24 @@ def run(ctx):
     f_lf = ctx.anchor("Link.from_coords", L.find_method("from_coords"))
     f_lt = ctx.anchor("Link.to_coords", L.find_method("to_coords"))
     cells = []
-    for o1, o2, (r, q) in itertools.product("+-", "+-", [(0, 0), (4, 4),
-                                                         (4, 6), (10, 10)]):
+    # the two segments have different lengths (10 and 7), so that a position
+    # compared with the length of the wrong segment shows; (7, 4) and (7, 7)
+    # put the length of the other segment on the `from` side
+    pairs = [(0, 0), (4, 4), (4, 6), (10, 7), (7, 7), (7, 4)]
+    if ctx.tier == "thorough":
+        pairs += [(1, 1), (10, 1), (3, 7), (9, 6), (6, 3)]
+    for o1, o2, (r, q) in itertools.product("+-", "+-", pairs):
         ov = Abs(repo.cls("CIGAR"), label="overlap")
         ln = Abs(L, label="link", from_orient=o1, to_orient=o2, overlap=ov,
                  from_segment=Abs(S1, label="seg:a", name="a", length=10),
-                 to_segment=Abs(S1, label="seg:b", name="b", length=10))
-        for f, side, length, suffix in (
-                (f_lf, "from", r, o1 == "+"), (f_lt, "to", q, o2 == "-")):
+                 to_segment=Abs(S1, label="seg:b", name="b", length=7))
+        for f, side, length, suffix, seglen in (
+                (f_lf, "from", r, o1 == "+", 10),
+                (f_lt, "to", q, o2 == "-", 7)):
             ctx.instance(R)
             out = eval_function(repo, f, [ln], hooks=IH(repo, r, q))
             got = [show(x) for x in out[1]] if out[0] == "return" else out[1]
-            want = ref_iv(suffix, length)
+            want = ref_iv(suffix, length, seglen)
             ok = got == want
             cell = "L,%s,orient=%s,ref=%d,query=%d" % (
                 side, o1 if side == "from" else o2, r, q)
